@@ -184,7 +184,7 @@ def build_lemma_file(sc, canary=False):
 
 # --------------------------------------------------------------------------- run
 
-def run(tier="quick"):
+def _run_core(tier="quick"):
     sc = E.Scratch("u9")
     obs = []
     try:
@@ -415,3 +415,52 @@ def replay(ob):
         bad = ('out of 15-bit range' in (o + e)) or (o.strip() != want)
         return bad, info
     return None, dict(note="no replay generator for this obligation")
+
+
+# --------------------------------------------------------------------------- bounded stand-in
+def _standin():
+    from units import clidiff
+    bad, n = clidiff.differential()
+    return E.Obligation("C05.cli.operand_forms.sampled", ["C05"], UNIT, "optimizer + immediate opcodes on the real CLI", "bounded: differential run",
+                        E.FAILED if bad else E.DISCHARGED, ("operand forms disagree on the real CLI: %r" % (bad,)) if bad else "", 0,
+                        OPTF, "", "%d expression instances x 3 operand forms (literal/literal = constant folder, variable/literal = immediate opcode, variable/variable)" % n,
+                        "runs ONLY when some optimizer function could not be verified on this tree (outside the verifier's reach): every arithmetic/comparison "
+                        "operator with operands as literals and as variables must give the same value or the same runtime error")
+
+
+def run(tier="quick"):
+    """_run_core, plus: when a function of the optimizer is outside the verifier's reach on this tree
+    (UNDECIDED), a bounded differential run on the real CLI stands in (labelled bounded)."""
+    try:
+        obs, info = _run_core(tier)
+    except (E.Undecided, S.SliceError) as ex:
+        ob = _standin()
+        if ob.status == E.FAILED:
+            u = E.Obligation("C05.opt.unit", ["C05"], UNIT, "optimize_bytecode.rs", "verus/z3", E.UNDECIDED, str(ex)[:1500], 0, OPTF, "", None, "")
+            return [u, ob], dict(assumptions=[], trusted_base=[], checker_cmds=[], notes=dict(undecided=str(ex)[:500]))
+        raise
+    if any(o.status == E.UNDECIDED for o in obs):
+        obs.append(_standin())
+    return obs, info
+
+
+_core_replay = globals().get('replay')
+
+
+def replay(ob):
+    if ob.id == "C05.cli.operand_forms.sampled" or _core_replay is None:
+        from units import clidiff
+        bad, n = clidiff.differential()
+        if bad:
+            ob.cex = dict(expression=bad['expression'])
+            return True, bad
+        return None, dict(note="no disagreement among %d instances" % n)
+    ok, info = _core_replay(ob)
+    if ok is None:
+        from units import clidiff
+        bad, n = clidiff.differential()
+        if bad:
+            ob.cex = dict(expression=bad['expression'])
+            info = dict(info or {}, cli_differential=bad)
+            return True, info
+    return ok, info
